@@ -10,7 +10,11 @@ R2  sort key abstractly evaluated on the node kinds derived from
 R3  param-writing constructs (found from their templates) only via the stack;
     emission loop <-> route return pairing; object-level alias analysis of the
     per-sibling stack (a `.copy()` is demanded only where the callee extends
-    its argument).
+    its argument); a construct pushed on the stack (rendered only at the
+    matched route's return) reads only the finder's parameters and generated
+    variables whose name is unique per node -- "shared vs unique" is read off
+    the construct classes (fixed template text / attribute not built from a
+    constructor argument = shared).
 R4  path[i] constructs: i <= level, emitted under this level's length guard
     (must-dataflow along the `parent = ...` chain).
 R5  idx = len(T) / T.append pairing; idx -> construct -> template -> generated
@@ -867,6 +871,7 @@ def r5_side_tables(run):
 
     funcs = _generator_funcs(p, gen)
     W = 'a lookup that returns another route\'s node, or matches/convert a segment with another segment\'s pattern/converter'
+    params_name = _params_gen_name(p, model)
     table_of_gen_name: Dict[str, str] = {}   # 'patterns' -> '_patterns' as established by the generator
     n_inst = 0
     for g in funcs:
@@ -882,6 +887,8 @@ def r5_side_tables(run):
             for (gname, attr, _slice) in cx.index_facts():
                 if gname not in model.gen_params or gname == model.gen_params[0]:
                     continue  # path[...] is R4's business
+                if gname == params_name:
+                    continue  # the dict the finder fills (keyed by field name), not a side table
                 pi = cx.param_of_attr(attr)
                 if pi is None:
                     raise UnknownIdiom('%s: index attribute %s is not a constructor parameter' % (cx.qual, attr))
@@ -1127,11 +1134,203 @@ def _stack_params(p, model, writers: Set[str], funcs: List[Func]) -> Dict[str, S
     """function qual -> names that receive `X.append(<param-writing construct>)`."""
     out: Dict[str, Set[str]] = {}
     for g in funcs:
+        held = _writer_locals(p, g, writers)
         for c in walk_self(g.node):
             if isinstance(c, ast.Call) and isinstance(c.func, ast.Attribute) and c.func.attr == 'append' and len(c.args) == 1 \
-                    and isinstance(c.args[0], ast.Call) and _is_in(p.callee(g, c.args[0]), writers) and isinstance(c.func.value, ast.Name):
+                    and isinstance(c.func.value, ast.Name) \
+                    and ((isinstance(c.args[0], ast.Call) and _is_in(p.callee(g, c.args[0]), writers))
+                         or (isinstance(c.args[0], ast.Name) and c.args[0].id in held)):
                 out.setdefault(g.qual, set()).add(c.func.value.id)
     return out
+
+
+def _writer_locals(p, g: Func, writers: Set[str]) -> Set[str]:
+    """Locals of g every binding of which is `x = <param-writing construct>(...)`."""
+    binds: Dict[str, List[bool]] = {}
+    for n in walk_self(g.node):
+        if isinstance(n, (ast.Assign, ast.AnnAssign, ast.AugAssign)):
+            targets = n.targets if isinstance(n, ast.Assign) else [n.target]
+            for t in targets:
+                for nm in H._target_names(t):
+                    binds.setdefault(nm, []).append(isinstance(n, ast.Assign) and isinstance(t, ast.Name) and isinstance(n.value, ast.Call)
+                                                    and _is_in(p.callee(g, n.value), writers))
+        elif isinstance(n, (ast.For, ast.AsyncFor)):
+            for nm in H._target_names(n.target):
+                binds.setdefault(nm, []).append(False)
+        elif isinstance(n, ast.NamedExpr) and isinstance(n.target, ast.Name):
+            binds.setdefault(n.target.id, []).append(False)
+    return {nm for nm, oks in binds.items() if all(oks) and nm not in g.params()}
+
+
+def _only_pushed(g: Func, name: str, parent) -> bool:
+    """Every read of local `name` in g is the sole argument of `<list name>.append(name)`."""
+    n_use = 0
+    for x in walk_self(g.node):
+        if isinstance(x, ast.Name) and x.id == name and isinstance(x.ctx, ast.Load):
+            up = parent.get(id(x))
+            if not (isinstance(up, ast.Call) and isinstance(up.func, ast.Attribute) and up.func.attr == 'append'
+                    and isinstance(up.func.value, ast.Name) and up.args == [x] and not up.keywords):
+                return False
+            n_use += 1
+    return n_use > 0
+
+
+# -- (d) what a delayed construct may read ---------------------------------
+
+def _shared_generated_names(model: H.CxModel) -> Dict[str, List[str]]:
+    """Generated variable whose name does not depend on the node it is emitted
+    for -> the constructs that assign it (`match`, `groups`, `fragment` today).
+    Decided from the construct classes: the assignment target is fixed template
+    text, or an attribute that is not built from a constructor argument."""
+    out: Dict[str, List[str]] = {}
+    for q, c in sorted(model.classes.items()):
+        _need, have = _class_names(model, c, set(), lines=c.resolved_code_lines())
+        for nm in have:
+            out.setdefault(nm, []).append(c.name)
+    return out
+
+
+def _expr_names(text: str) -> Optional[Set[str]]:
+    """Names read by a piece of generated source used as an expression."""
+    try:
+        tree = ast.parse(text.strip(), mode='eval')
+    except SyntaxError:
+        return None
+    return {n.id for n in ast.walk(tree) if isinstance(n, ast.Name)}
+
+
+def _generated_reads(p, model: H.CxModel, g: Func, rd: 'H.ReachingDefs', nid: int, e, depth=0) -> Tuple[Set[str], List[str]]:
+    """The generated-code names that the text of generator expression `e`
+    (evaluated at CFG node nid) reads once it is rendered as an expression of
+    the finder: (fixed names, per-instance names that are nevertheless the same
+    for every node).  A name built from a per-node constructor argument of the
+    construct that assigns it contributes nothing."""
+    if depth > 6:
+        raise UnknownIdiom('%s: alias chain of %s too deep' % (g.qual, short(e, 40)))
+    if isinstance(e, ast.Constant):
+        if not isinstance(e.value, str):
+            return set(), []
+        names = _expr_names(e.value)
+        if names is None:
+            raise UnknownIdiom('%s: %r is rendered as an expression of the finder but does not parse as one' % (g.qual, e.value))
+        return names, []
+    if isinstance(e, ast.Name):
+        fixed: Set[str] = set()
+        same: List[str] = []
+        for d in sorted(rd.at(nid, e.id)):
+            v = rd.def_value(d, e.id) if d != H.ENTRY_DEF else None
+            if v is None:
+                raise UnknownIdiom('%s: origin of %s, rendered as an expression of the finder, is not a plain local assignment' % (g.qual, e.id))
+            f2, s2 = _generated_reads(p, model, g, rd, d, v, depth + 1)
+            fixed |= f2
+            same += s2
+        return fixed, same
+    if isinstance(e, ast.Attribute) and isinstance(e.value, ast.Name):
+        fixed = set()
+        same = []
+        for d in sorted(rd.at(nid, e.value.id)):
+            v = rd.def_value(d, e.value.id) if d != H.ENTRY_DEF else None
+            cx = model.of(p.callee(g, v)) if isinstance(v, ast.Call) else None
+            if cx is None:
+                raise UnknownIdiom('%s: %s is not bound to a construct created here' % (g.qual, e.value.id))
+            txt = cx.fixed_text_of_attr(e.attr)
+            if txt is not None:
+                names = _expr_names(txt)
+                if names is None:
+                    raise UnknownIdiom('%s.%s = %r does not parse as an expression' % (cx.name, e.attr, txt))
+                fixed |= names
+                continue
+            src = cx.attr_src.get(e.attr)
+            if not src or src[0] != 'name':
+                raise UnknownIdiom('%s: %s.%s is not a generated variable name' % (g.qual, cx.name, e.attr))
+            if e.attr not in cx.assigned_attrs():
+                raise UnknownIdiom('%s does not assign the generated variable it names in .%s' % (cx.name, e.attr))
+            if v.keywords or any(isinstance(a, ast.Starred) for a in v.args) or any(i >= len(v.args) for i in src[2]):
+                raise UnknownIdiom('%s: construction %s' % (g.qual, short(v, 80)))
+            if all(isinstance(v.args[i], ast.Constant) for i in src[2]):
+                same.append('%s of %s (built from constants only)' % (e.attr, short(v, 60)))
+        return fixed, same
+    raise UnknownIdiom('%s: %s is rendered as an expression of the finder; its origin is not understood' % (g.qual, short(e, 60)))
+
+
+def _delayed_reads(run, p, model: H.CxModel, funcs: List[Func], stacks: Dict[str, Set[str]], pname: str) -> int:
+    """A construct pushed on the parameter stack is rendered only at the
+    matched route's return, i.e. after every deeper level and (when the walk
+    backtracked) abandoned sibling branches have run.  Whatever it reads must
+    still hold this node's value then: the finder's own parameters, or a
+    generated variable whose name is unique to the node."""
+    shared = _shared_generated_names(model)
+    ambient = _ambient_names(model)
+    run.extra['c01_shared_generated_names'] = {k: v for k, v in sorted(shared.items())}
+    n_d = 0
+    for g in funcs:
+        snames = set(stacks.get(g.qual, set()))
+        for nm in g.params():
+            if _receives_stack(p, funcs, stacks, g, nm):
+                snames.add(nm)
+        if not snames:
+            continue
+        cfg = cfg_of(g, p)
+        rd = H.ReachingDefs(cfg)
+        for n in cfg.live_nodes():
+            if n.copy:
+                continue
+            for c in n.calls():
+                if not (isinstance(c.func, ast.Attribute) and c.func.attr == 'append' and isinstance(c.func.value, ast.Name)
+                        and c.func.value.id in snames):
+                    continue
+                if len(c.args) != 1 or c.keywords:
+                    raise UnknownIdiom('%s: %s' % (g.qual, short(c, 80)))
+                # the construct(s) pushed: a creation, or a local bound to creations
+                a = c.args[0]
+                creations: List[Tuple[int, ast.Call]] = []
+                if isinstance(a, ast.Call):
+                    creations.append((n.id, a))
+                elif isinstance(a, ast.Name):
+                    for d in sorted(rd.at(n.id, a.id)):
+                        v = rd.def_value(d, a.id) if d != H.ENTRY_DEF else None
+                        if not isinstance(v, ast.Call):
+                            raise UnknownIdiom('%s: %s pushes %s, whose origin is not a construct creation' % (g.qual, short(c, 60), a.id))
+                        creations.append((d, v))
+                else:
+                    raise UnknownIdiom('%s: %s' % (g.qual, short(c, 80)))
+                fixed: Set[str] = set()
+                same: List[str] = []
+                for (at, v) in creations:
+                    cx = model.of(p.callee(g, v))
+                    if cx is None:
+                        raise UnknownIdiom('%s: %s pushes something that is not a construct' % (g.qual, short(c, 80)))
+                    need, _have = _class_names(model, cx, set(), lines=cx.resolved_code_lines())
+                    fixed |= set(need)
+                    for attr in sorted(cx.expression_attrs()):
+                        if cx.fixed_text_of_attr(attr) is not None:
+                            continue   # already part of the resolved lines
+                        src = cx.attr_src.get(attr)
+                        if src and src[0] == 'name':
+                            continue   # the construct's own per-instance variable
+                        pi = cx.param_of_attr(attr)
+                        if pi is None:
+                            raise UnknownIdiom('%s: attribute %s rendered as an expression is not a constructor parameter' % (cx.qual, attr))
+                        if v.keywords or any(isinstance(x, ast.Starred) for x in v.args) or pi >= len(v.args):
+                            raise UnknownIdiom('%s: construction %s' % (g.qual, short(v, 80)))
+                        f2, s2 = _generated_reads(p, model, g, rd, at, v.args[pi])
+                        fixed |= f2
+                        same += s2
+                bad = ['`%s` (assigned by %s for every node that emits it)' % (nm, '/'.join(shared[nm])) for nm in sorted(fixed) if nm in shared]
+                bad += ['`%s`' % t for t in same]
+                unknown = sorted(nm for nm in fixed if nm not in shared and nm not in ambient)
+                if unknown and not bad:
+                    raise UnknownIdiom('%s: %s reads %s, which neither the finder\'s prologue nor any construct assigns' % (
+                        g.qual, short(c, 80), ', '.join(unknown)))
+                n_d += 1
+                run.check(not bad, 'a construct delayed until the matched route\'s return reads, besides the finder\'s own parameters, only '
+                          'generated variables whose name is unique to its node (not one that deeper or abandoned sibling nodes rebind)',
+                          g, c, where=g.loc(c),
+                          witness=['rendered at return time it reads %s' % b for b in bad] if bad else None,
+                          runtime_witness='routes /{a:int}-{b}/{c:int}-{d} and /{a:int}-{b}/{e}: GET /1-x/2-y loses b; GET /1-x/q-y '
+                                          '(inner pattern matches, converter refuses, walk falls back to {e}) loses b and carries d '
+                                          'from the abandoned branch')
+    return n_d
 
 
 def r3_delayed_params(run):
@@ -1165,12 +1364,19 @@ def r3_delayed_params(run):
                 up = par.get(id(c))
                 ok = (isinstance(up, ast.Call) and isinstance(up.func, ast.Attribute) and up.func.attr == 'append'
                       and isinstance(up.func.value, ast.Name) and up.args == [c] and not up.keywords)
+                if not ok and isinstance(up, ast.Assign) and len(up.targets) == 1 and isinstance(up.targets[0], ast.Name) \
+                        and up.targets[0].id in _writer_locals(p, g, writers) and _only_pushed(g, up.targets[0].id, par):
+                    ok = True   # held in a local that is only ever pushed on a stack
                 n_a += 1
                 run.check(ok, 'a construct that writes `%s` is created only as the argument of <stack>.append(...) '
                           '(assignment is delayed until a route matched)' % pname, g, up if isinstance(up, ast.Call) else c,
                           where=g.loc(c), runtime_witness=W)
     if n_a == 0:
         raise AnchorError('no instantiation of a param-writing construct found')
+
+    # (d) what the delayed constructs read at return time
+    if _delayed_reads(run, p, model, funcs, stacks, pname) == 0:
+        raise AnchorError('no construct is pushed on a parameter stack')
 
     # mutating callees (which positional parameter's incoming list they extend)
     mutating: Dict[str, Set[int]] = {}
@@ -1654,11 +1860,11 @@ def _line_names(model: H.CxModel, ln: str, ambient: Set[str]) -> Tuple[Optional[
     return defined, reads
 
 
-def _class_names(model: H.CxModel, cx: H.CxClass, ambient: Set[str]) -> Tuple[List[str], List[str]]:
+def _class_names(model: H.CxModel, cx: H.CxClass, ambient: Set[str], lines: Optional[List[str]] = None) -> Tuple[List[str], List[str]]:
     """(fixed names read from the enclosing scope, fixed names defined)."""
     need: List[str] = []
     have: List[str] = []
-    for ln in cx.code_lines():
+    for ln in (cx.code_lines() if lines is None else lines):
         d, reads = _line_names(model, ln, ambient)
         for r in sorted(reads):
             if r not in have and r not in need:
@@ -1668,21 +1874,27 @@ def _class_names(model: H.CxModel, cx: H.CxClass, ambient: Set[str]) -> Tuple[Li
     return need, have
 
 
-def r6_generated_names(run):
+def _ambient_names(model: H.CxModel) -> Set[str]:
+    """Names that exist in every generated finder before any construct runs:
+    its parameters, the prologue's locals, builtins."""
     import builtins
     import re
-    p = run.project
-    model = H.CxModel(p)
-    gen, gcfg = _generator(p)
-    run.use_cfg(gcfg)
-    funcs = _generator_funcs(p, gen)
-    # names that exist in every generated finder: its parameters, the prologue's locals, builtins
     ambient = set(model.gen_params) | set(dir(builtins))
     for n in walk_self(model.compile_func.node):
         if isinstance(n, ast.Constant) and isinstance(n.value, str):
             m = re.match(r'^\s*(\w+)\s*=\s*\S', n.value)
             if m and n.value is not model.header:
                 ambient.add(m.group(1))
+    return ambient
+
+
+def r6_generated_names(run):
+    p = run.project
+    model = H.CxModel(p)
+    gen, gcfg = _generator(p)
+    run.use_cfg(gcfg)
+    funcs = _generator_funcs(p, gen)
+    ambient = _ambient_names(model)
     names = {q: _class_names(model, c, ambient) for q, c in model.classes.items()}
     run.extra['c01_generated_names'] = {q.rsplit('.', 1)[-1]: {'reads': v[0], 'defines': v[1]} for q, v in names.items() if v[0] or v[1]}
     W = 'NameError (or a stale value) inside the generated finder when a route through this construct is looked up'
@@ -1807,8 +2019,8 @@ def r6_generated_names(run):
             run.check(not missing, 'generated names read by %s (%s) are assigned by constructs emitted earlier into the same block or an '
                       'enclosing one' % ('/'.join(sorted(q.rsplit('.', 1)[-1] for q in cl)), ', '.join(need)), g, c, where=g.loc(c),
                       witness=['not surely assigned here: %s' % ', '.join(missing)] if missing else None, runtime_witness=W)
-    if n_a == 0:
-        raise AnchorError('no emitted construct reads a generated name')
+    if n_a < 3:
+        raise AnchorError('only %d emitted construct(s) read a fixed generated name (match/groups/fragment def-use chain not found)' % n_a)
 
     # (b) a construct whose generated variable is referenced by a pushed/created construct is itself emitted
     n_b = 0
@@ -1843,8 +2055,8 @@ def r6_generated_names(run):
                           'hands a reference to that variable to another construct' % short(e, 50), g,
                           n.ast if n.ast is not None else n.text(), where='%s:%s' % (g.file, n.lineno),
                           witness=flow.describe_path(cfg, (before or []) + (after or [])) if after else None, runtime_witness=W)
-    if n_b == 0:
-        raise AnchorError('no reference to a generated variable name found')
+    if n_b < 2:
+        raise AnchorError('only %d reference(s) to a generated variable name found' % n_b)
 
 
 # ---------------------------------------------------------------------------
@@ -2037,7 +2249,9 @@ def check(run):
     run.rule('R3', r3_delayed_params, 'parameter assignment is delayed to the matched route and never leaks between branches', floor=14)
     run.rule('R4', r4_index_guards, 'every path[i] in the generated finder is under a length guard that covers i', floor=10)
     run.rule('R5', r5_side_tables, 'side tables: index/append pairing and position agreement with the generated finder', floor=25)
-    run.rule('R6', r6_generated_names, 'generated names are assigned before the constructs that read them', floor=10)
+    run.rule('R6', r6_generated_names, 'generated names are assigned before the constructs that read them', floor=6)
+    # R6 floor: 6 reads + 4 references today; the parts have their own minima (3 / 2) so that dropping one construct class
+    # (with everything still referenced being emitted) is not by itself an analysis error
     run.rule('R7', r7_conflict_table, 'conflicts_with on the 3x3 node kinds', floor=6)
     run.rule('R8', r8_pruning, 'fast_return pruning is only ever conservative', floor=5)
     run.rule('R10', r10_finder_invalidated, 'every accepted add_route invalidates or rebuilds the compiled finder', floor=3)
